@@ -29,7 +29,7 @@ pub static DEF: CheckDef = CheckDef {
 };
 
 fn families(t: Tier) -> Vec<(&'static str, u64)> {
-    vec![("layer", t.n(6_000, 300_000)), ("model", t.n(2_000, 100_000)), ("cost", t.n(3_000, 100_000))]
+    vec![("layer", t.n(6_000, 1_500_000)), ("model", t.n(2_000, 500_000)), ("cost", t.n(3_000, 500_000))]
 }
 fn floors(_t: Tier) -> Vec<(&'static str, u64)> {
     vec![("evaluations", 10_000), ("layer_outputs_compared", 5_000), ("model_outputs_compared", 1_500), ("cost_arrays_compared", 2_500), ("model_backward_sums_compared", 1_000), ("batched_conv_layers", 800)]
